@@ -118,7 +118,9 @@ open RS.SrcG RS.RustG in
     every one hands ALL its parameters, in order, to the method of the same name of the object it wraps;
     `ReedSolomonEncoder::new` / `ReedSolomonDecoder::new` build the default-rate codec on `DefaultEngine` with no
     recycled work, and `supports` is `DefaultRate::supports` — so the layers cannot disagree about the
-    configuration, the rate or the shards -/
+    configuration, the rate or the shards; and the twelve associated types (`type Rate = …`, `type RateEncoder = …`,
+    `type RateDecoder = …`) stay inside their family, so that the provided `supports` / `validate` of a codec are those of
+    its own rate -/
 theorem source_api_layers_delegate :
     holds "ReedSolomonEncoder::new" 3 (isRsNew "DefaultRateEncoder") = true ∧
     holds "ReedSolomonDecoder::new" 3 (isRsNew "DefaultRateDecoder") = true ∧
@@ -140,14 +142,15 @@ theorem source_api_layers_delegate :
     holds "Rate::decoder" 5 (isCallDeleg "Self::RateDecoder::new" 5) = true ∧
     (∀ c ∈ ["HighRateEncoder", "LowRateEncoder", "HighRateDecoder", "LowRateDecoder"],
       holds (c ++ "::new") 5 isRateNew = true ∧ holds (c ++ "::reset") 3 isRateReset = true ∧
-      holds (c ++ "::into_parts") 0 isParts = true) := by
+      holds (c ++ "::into_parts") 0 isParts = true) ∧
+    (assocTypes.length = 12 ∧ assocTypes.all assocOk = true) := by
   have h1 := rs_wrappers_delegate
   have h2 := trait_defaults_delegate
   have h3 := dedicated_codecs_delegate
   have h4 := default_codecs_delegate
   refine ⟨h1.2.2.2.1, h1.2.2.2.2.2.2.2.2.2.1, h1.2.2.2.2.1, h1.2.2.2.2.2.2.2.2.2.2, h1.1, h1.2.1, h1.2.2.1,
     h1.2.2.2.2.2.1, h1.2.2.2.2.2.2.1, h1.2.2.2.2.2.2.2.1, h1.2.2.2.2.2.2.2.2.1,
-    h4.1, h4.2.1, h4.2.2.2.1, h4.2.2.2.2.1, h4.2.2.2.2.2.1, h2.1, h2.2.1, ?_⟩
+    h4.1, h4.2.1, h4.2.2.2.1, h4.2.2.2.2.1, h4.2.2.2.2.2.1, h2.1, h2.2.1, ?_, assoc_types_stay_in_family⟩
   decide
 
 end RS
